@@ -89,6 +89,7 @@ fn main() {
             });
         }
         "replay" => {
+            vcheck::props::warm::warm_process();
             if args.len() < 3 {
                 usage();
             }
